@@ -115,9 +115,19 @@ def h2(ctx):
                 pass
     for n in [m for g in _with_helpers(ctx, f) for m in ast.walk(g.node)]:
         if isinstance(n, ast.If) and any(isinstance(m, ast.Name) and m.id == 'fix' for m in ast.walk(n.test)):
-            for m in ast.walk(n):
-                if isinstance(m, ast.Call) and (dotted(m.func) or '').endswith('warnings.warn'):
-                    bad = m
+            for blk in [x for x in ast.walk(n) if hasattr(x, 'body') and isinstance(getattr(x, 'body'), list)]:
+                for lst in (blk.body, getattr(blk, 'orelse', []) or []):
+                    for i, stmt in enumerate(lst):
+                        if isinstance(stmt, ast.Expr) and isinstance(stmt.value, ast.Call) and \
+                                (dotted(stmt.value.func) or '').endswith('warnings.warn'):
+                            # a warning inside the fix branch is legitimate only when it announces a repair that
+                            # follows it right there (something that became inconsistent through the repair itself)
+                            follows = any(isinstance(c, ast.Call) and ((dotted(c.func) or '').split('.')[-1] in
+                                                                        ('rmdir', 'remove', 'unlink', 'removedirs', 'rmtree')
+                                                                        or (dotted(c.func) or '') in ('sql',))
+                                          for later in lst[i + 1:] for c in ast.walk(later))
+                            if not follows:
+                                bad = stmt.value
     obs.append(Ob('H2', 'Cache.check/report-independent-of-fix', bad is None,
                   'a warning is issued only under `fix` (or only without it): check() and check(fix=True) must report '
                   'the same inconsistencies', f.loc(bad) if bad is not None else f.loc()))
@@ -322,6 +332,14 @@ def h5(ctx):
             if cut:
                 seg = seg[:cut[0]]
             ft = [x for x in seg if x.kind == 'TEST' and x.d['val'].k == 'param' and x.d['val'].a[0] == 'fix']
+            if not ft and _fix_true_before(tr, w.seq):
+                # a warning issued while repairing (about something the repair itself uncovered): it has to be
+                # followed by its own repair
+                info['fix_tested'] = True
+                if not _repairs(seg, f):
+                    info['ok'] = False
+                    info['wit'] = info['wit'] or fmt_trace(tr)
+                continue
             if not ft:
                 continue
             info['fix_tested'] = True
